@@ -112,7 +112,9 @@ impl Stream for Cycle {
         ))
     }
     fn pythonic_index_isize(&self, i: isize) -> NRes<Obj> {
-        Ok(self.0[(self.1 as isize + i).rem_euclid(self.0.len() as isize) as usize].clone())
+        // reduce the index first so that adding the cursor cannot overflow
+        let n = self.0.len() as isize;
+        Ok(self.0[(self.1 as isize + i.rem_euclid(n)).rem_euclid(n) as usize].clone())
     }
     fn reversed(&self) -> NRes<Seq> {
         let mut v: Vec<Obj> = (*self.0).clone();
